@@ -4,6 +4,8 @@ package props
 
 import (
 	"bytes"
+	"encoding/xml"
+	"io"
 	"strings"
 	"testing"
 
@@ -25,6 +27,8 @@ type CaseC05 struct {
 	Enc    int          `json:"enc"` // 0 Map.Xml 1 Map.XmlIndent 2 MapSeq.Xml 3 MapSeq.XmlIndent
 	Doc    *XElem       `json:"doc,omitempty"`
 	Calls  []SwitchCall `json:"calls,omitempty"`
+	Value  map[string]interface{} `json:"value,omitempty"` // clause e: any JSON-shaped Map, any root shape
+	Root   string                 `json:"root,omitempty"`  // clause e: explicit root tag ("" = none)
 }
 
 func init() { register("C05", checkC05) }
@@ -52,7 +56,7 @@ func genMildStr(t *rapid.T, label string) string {
 }
 
 func genC05(t *rapid.T) CaseC05 {
-	c := CaseC05{Clause: rapid.SampledFrom([]string{"a", "a", "b", "c", "c", "d"}).Draw(t, "clause")}
+	c := CaseC05{Clause: rapid.SampledFrom([]string{"a", "a", "b", "c", "c", "d", "e", "e"}).Draw(t, "clause")}
 	c.Enc = rapid.IntRange(0, 3).Draw(t, "enc")
 	switch c.Clause {
 	case "a", "c":
@@ -67,6 +71,34 @@ func genC05(t *rapid.T) CaseC05 {
 	case "b":
 		g := XGen{Opts: Opts{AttrPrefix: "-", KeyPrefix: "#", DecEscape: true}, MixedText: c.Enc < 2, Namespaces: c.Enc >= 2, TextGen: genEscStr}
 		c.Doc = g.Elem(t, rapid.IntRange(1, 3).Draw(t, "depth"))
+	case "e":
+		gen := genMildStr
+		if rapid.Bool().Draw(t, "hostile") {
+			gen = func(t *rapid.T, l string) string {
+				if rapid.IntRange(0, 3).Draw(t, l+"bad") == 0 {
+					return genEscStr(t, l)
+				}
+				return genMildStr(t, l)
+			}
+		}
+		g := VGen{Keys: xmlKeyNames, Attrs: true, Nulls: true, StringGen: gen}
+		c.Value = g.Map(t, 2)
+		if rapid.IntRange(0, 2).Draw(t, "singlelist") == 0 {
+			// the root shapes a decoded document never has: one key holding a list
+			k := rapid.SampledFrom(xmlKeyNames).Draw(t, "rk")
+			n := rapid.IntRange(1, 3).Draw(t, "rn")
+			l := make([]interface{}, n)
+			for i := range l {
+				if rapid.Bool().Draw(t, "rmap") {
+					l[i] = g.Map(t, 1)
+				} else {
+					l[i] = g.Scalar(t)
+				}
+			}
+			c.Value = map[string]interface{}{k: l}
+		}
+		c.Root = rapid.SampledFrom([]string{"", "", "top"}).Draw(t, "root")
+		c.Enc = rapid.IntRange(0, 1).Draw(t, "menc")
 	case "d":
 		n := rapid.IntRange(1, 5).Draw(t, "ncalls")
 		for i := 0; i < n; i++ {
@@ -74,6 +106,20 @@ func genC05(t *rapid.T) CaseC05 {
 		}
 	}
 	return c
+}
+
+// tokenizes: the standard tokenizer reads the whole output without an error (what XmlCheckIsValid promises).
+func tokenizes(b []byte) error {
+	d := xml.NewDecoder(bytes.NewReader(b))
+	for {
+		_, err := d.Token()
+		if err == io.EOF {
+			return nil
+		}
+		if err != nil {
+			return err
+		}
+	}
 }
 
 func hasSpecial(s string) bool { return strings.ContainsAny(s, "&<>\"'") }
@@ -154,6 +200,54 @@ func checkC05(c CaseC05, info *Info) *Failure {
 			info.Class("c: error returned")
 		}
 		info.NonTrivial(hasSpecial(c.Text) || hasSpecial(c.Attr) || hasSpecial(c.Mixed))
+	case "e":
+		if c.Value == nil {
+			info.Skip = "empty case"
+			return nil
+		}
+		encode := func() ([]byte, error) {
+			m := mxj.Map(copyMap(c.Value))
+			var tags []string
+			if c.Root != "" {
+				tags = []string{c.Root}
+			}
+			if c.Enc == 0 {
+				return m.Xml(tags...)
+			}
+			return m.XmlIndent("", " ", tags...)
+		}
+		x0, err0 := encode()
+		mxj.XmlCheckIsValid(true)
+		x, err := encode()
+		special := false
+		var walk func(v interface{})
+		walk = func(v interface{}) {
+			switch y := v.(type) {
+			case map[string]interface{}:
+				for _, vv := range y {
+					walk(vv)
+				}
+			case []interface{}:
+				for _, vv := range y {
+					walk(vv)
+				}
+			case string:
+				special = special || hasSpecial(y)
+			}
+		}
+		walk(c.Value)
+		if err == nil {
+			if terr := tokenizes(x); terr != nil {
+				return failf("invalid-output-without-error", "enc %d root %q value %s: %q returned with nil error (%v)", c.Enc, c.Root, canon(c.Value), x, terr)
+			}
+			info.Class("e: valid output")
+		} else {
+			if err0 == nil && tokenizes(x0) == nil {
+				return failf("spurious-validity-error", "enc %d root %q value %s: %q tokenizes but the check reported %v", c.Enc, c.Root, canon(c.Value), x0, err)
+			}
+			info.Class("e: error returned")
+		}
+		info.NonTrivial(special)
 	case "b":
 		if c.Doc == nil {
 			info.Skip = "empty case"
